@@ -490,7 +490,7 @@ func Judge(exp Expect, op FsOp, r FsResult) (clause, msg string) {
 			if exp.Name != "" && r.Info.Name() != exp.Name {
 				return "wrong-answer", fmt.Sprintf("%s Name=%q, model says %q", op, r.Info.Name(), exp.Name)
 			}
-			if !exp.IsDir && int(r.Info.Size()) != exp.Size {
+			if !exp.IsDir && exp.Size >= 0 && int(r.Info.Size()) != exp.Size {
 				return "wrong-answer", fmt.Sprintf("%s Size=%d, model says %d", op, r.Info.Size(), exp.Size)
 			}
 		}
